@@ -251,8 +251,11 @@ def _bind(st, tgt, val, fr):
         key = st.key(base, fr) if isinstance(base, ast.Attribute) else None
         if key is not None:
             st.tainted.add(key)
-            if isinstance(tgt.slice, ast.Constant):
-                ck = '%s[%r]' % (key, tgt.slice.value)
+            sl = tgt.slice
+            if isinstance(sl, ast.Name) and isinstance(st.loc.get((fr.fid, sl.id)), ast.Constant):
+                sl = st.loc[(fr.fid, sl.id)]        # d[k] = v with k a local that holds a constant on this path (unrolled table loop)
+            if isinstance(sl, ast.Constant):
+                ck = '%s[%r]' % (key, sl.value)
                 if val is None:
                     st.heap.pop(ck, None)
                 else:
